@@ -501,6 +501,14 @@ func buildSeq(dg []int) []seqPkt {
 			sp.dupPrev = true
 			sp.tag = lastA.tag
 			sp.dataLen = lastA.dataLen
+			if !lastA.usable {
+				// the first copy arrived with transport_error_indicator set, the second one intact
+				cp.TEI = false
+				sp.usable, sp.dupPrev = true, false
+				out = append(out, sp)
+				lastA = &out[len(out)-1]
+				continue
+			}
 			out = append(out, sp)
 			continue
 		}
@@ -613,8 +621,8 @@ func checkSeq(seq []seqPkt) (sig, msg string, delivered int, faultFree bool) {
 			}
 			for j := prev + 1; j < i; j++ {
 				q := seq[j]
-				if !q.a || !q.pkt.HasPL || q.dupPrev {
-					continue // other PID, adaptation-only, or an immediate duplicate
+				if !q.a || !q.pkt.HasPL || q.dupPrev || !q.usable {
+					continue // other PID, adaptation-only, an immediate duplicate, or a transport-error packet (the counter rule above guards the join)
 				}
 				return "splice-skips-packet", fmt.Sprintf("unit joins packets %d and %d but skips payload packet %d", prev, i, j), delivered, false
 			}
@@ -646,6 +654,20 @@ func checkSeq(seq []seqPkt) (sig, msg string, delivered int, faultFree bool) {
 			if !q.usable && !q.pkt.PUSI && q.pkt.CC == (seq[last].pkt.CC+1)&0xf {
 				return "truncated-unit-delivered", fmt.Sprintf("unit ending at packet %d was delivered although its continuation (packet %d, transport error) was lost and a later packet of the PID reveals the gap", last, next), delivered, false
 			}
+		}
+	}
+	// a packet with transport_error_indicator set is to be ignored: the output must equal that of the
+	// sequence without those packets
+	var noTEI []*ref.Pkt
+	for _, s := range seq {
+		if !s.pkt.TEI {
+			noTEI = append(noTEI, s.pkt)
+		}
+	}
+	if len(noTEI) != len(seq) {
+		o2 := DemuxBytes(EncodePkts(noTEI))
+		if mc.Canon(canonData(out.Data)) != mc.Canon(canonData(o2.Data)) {
+			return "transport-error-packet-changes-output", fmt.Sprintf("%d data delivered, %d without the transport-error packets", len(out.Data), len(o2.Data)), delivered, false
 		}
 	}
 	// completeness on fault-free PID-A subsequences
